@@ -83,6 +83,8 @@ type c16World struct {
 	keys   []storetypes.StoreKey // every store of the multistore, sorted by name
 	knames []string
 
+	signerMismatch string // set by exec when msg.GetSigners() is not the account the handler authenticates
+
 	pfMsg   pricefeedtypes.MsgServer
 	issMsg  issuancetypes.MsgServer
 	b3Msg   bep3types.MsgServer
